@@ -111,6 +111,12 @@ class Model:
         self.name_resolved = 0
         if need_types:
             self.load_types()
+        # helpers that did not exist on the confirmed tree are expanded in their callers (sa/inline.py)
+        self.inline_report: dict = {'enabled': False}
+        if not os.environ.get('VERIF_NO_INLINE'):
+            from . import inline
+
+            self.inline_report = inline.apply(self)
 
     # ------------------------------------------------------------------ parsing
     def _parse_all(self) -> None:
